@@ -11,6 +11,7 @@ import (
 	"unsafe"
 
 	"github.com/douban/gobeansdb/config"
+	"github.com/douban/gobeansdb/vhook"
 )
 
 var (
@@ -85,6 +86,7 @@ func (arr *CArray) Alloc(size int) bool {
 		return false
 	}
 	AllocRL.AddSizeAndCount(size)
+	vhook.Mem("alloc", arr.Addr, size)
 	arr.Cap = size
 	sliceheader := (*reflect.SliceHeader)(unsafe.Pointer(&arr.Body))
 	sliceheader.Data = arr.Addr
@@ -96,6 +98,7 @@ func (arr *CArray) Alloc(size int) bool {
 func (arr *CArray) Free() {
 	if arr.Addr != 0 {
 		AllocRL.SubSizeAndCount(arr.Cap)
+		vhook.Mem("free", arr.Addr, arr.Cap)
 		C.free(unsafe.Pointer(arr.Addr))
 		arr.Body = nil
 		arr.Addr = 0
